@@ -209,6 +209,14 @@ def tlc(workdir, module, cfg, workers=8, timeout=900, simulate=None, env_extra=N
     cfgp = os.path.join(workdir, f"{module}.cfg")
     with open(cfgp, "w") as fh:
         fh.write(cfg)
+    # VERIF_SAVE_CFG=<dir>: keep a copy of every configuration a check runs (spec/cfg holds those of the quick tier,
+    # so that the model-checking runs can be repeated by hand: tlc -config spec/cfg/<file> spec/<module>.tla)
+    save = os.environ.get("VERIF_SAVE_CFG")
+    if save:
+        os.makedirs(save, exist_ok=True)
+        tag = os.path.basename(workdir.rstrip("/"))
+        with open(os.path.join(save, f"{module}--{tag}.cfg"), "w") as fh:
+            fh.write(f"\\* TLC configuration used by bin/check (module {module}, run {tag}, workers {workers})\n" + cfg)
     md = os.path.join(workdir, "md")
     shutil.rmtree(md, ignore_errors=True)
     jopts = ["-Xss1g"]
